@@ -392,7 +392,7 @@ def run_shard(ctx):
     History.stats = ctx.stats
     BRAND_NEW_ENABLED[0] = ctx.shard < 2 or not ctx.quick()
     HASHSEEDS[1] = str(1 + ctx.hyp_seed % 4294967290)
-    n = ctx.scale(10, 36)
+    n = ctx.scale(7, 30)
     steps = ctx.scale(16, 40)
     machine = hypothesis.seed(ctx.hyp_seed)(History)
     try:
